@@ -10,7 +10,7 @@ class Contract:
     def __init__(self, cid, file, func, params=None, returns=None, enc="native", requires=(), ensures=None,
                  raises=None, modifies=(), loops=None, locals=None, lets=None, prop=None, inline=False,
                  trusted=False, fresh_result=True, self_class=None, notes="", bounded=None, ghost=None,
-                 pure=False, old=None, kind="top", calls=None, assume=(), unwind=None, recursive=False):
+                 pure=False, old=None, kind="top", calls=None, assume=(), unwind=None, recursive=False, lemmas=()):
         self.cid = cid
         self.file = file
         self.func = func
@@ -38,6 +38,7 @@ class Contract:
         self.assume = list(assume)            # explicitly listed assumptions (reported in evidence)
         self.unwind = unwind
         self.recursive = recursive
+        self.lemmas = list(lemmas)   # dicts: name, vars{name:type}, induct (var name), stmt
         if cid in CONTRACTS:
             raise KeyError(f"duplicate contract id {cid}")
         CONTRACTS[cid] = self
